@@ -44,6 +44,8 @@ def run (args : List String) : String :=
       -- library container: by C10_noninterference the two renderings must coincide
       if p1 != p2 then diff "plain-depends-on-secret" (hex p1) (hex p2)
       else if q1 != q2 then diff "pretty-depends-on-secret" (hex q1) (hex q2)
+      -- a container type that is not Debug cannot be formatted at all (the harness reports this fixed text)
+      else if p1 == lit "<type is not Debug>" then s!"ok container{shape}-not-debug"
       else if !(isInfix (ty ++ lit "([redacted])") p1) then diff "secret-not-redacted-marker" (hex (ty ++ lit "([redacted])")) (hex p1)
       else s!"ok container{shape}"
 
